@@ -37,10 +37,11 @@ Thk(C)     == [t |-> "thk", c |-> C]
 Ret(A)     == [t |-> "ret", a |-> A]
 Fn(A, C)   == [t |-> "fn", a |-> A, c |-> C]
 Pair(A, B) == [t |-> "pair", a |-> A, b |-> B]
+VFn(A, B)  == [t |-> "vfn", a |-> A, b |-> B]     \* pure (value-level) function: fn x => v
 Data(n)    == [t |-> "data", n |-> n]
 CoData(n)  == [t |-> "codata", n |-> n]
 
-IsV(T) == T.t \in {"int", "unit", "str", "thk", "pair", "data"}
+IsV(T) == T.t \in {"int", "unit", "str", "thk", "pair", "data", "vfn"}
 IsC(T) == T.t \in {"os", "ret", "fn", "codata"}
 
 (* The scaffold's declared (transparent, structural) data and codata types. *)
@@ -75,6 +76,7 @@ NamedTy(nm) ==
     [] nm = "tri" -> Thk(Ret(TInt))
     [] nm = "tfi" -> Thk(Fn(TInt, Ret(TInt)))
     [] nm = "tos" -> Thk(OS)
+    [] nm = "gi" -> VFn(TUnit, TInt)
 BTys == {NamedTy(nm) : nm \in BindTys}
 
 ----------------------------------------------------------------------------
@@ -91,8 +93,8 @@ Ob(s, ty, ctx) == [s |-> s, ty |-> ty, ctx |-> ctx]
 (* Number of subterms of a token. *)
 Arity(tok) ==
   CASE tok.k \in {"var", "int", "unit", "str", "tyterm"} -> 0
-    [] tok.k \in {"thunk", "ret", "lam", "force", "exit", "ctor", "dtor", "fix", "i2s"} -> 1
-    [] tok.k \in {"do", "app", "let", "arith", "pair", "matchP", "wl", "sapp"} -> 2
+    [] tok.k \in {"thunk", "ret", "lam", "force", "exit", "ctor", "dtor", "fix", "i2s", "vlam"} -> 1
+    [] tok.k \in {"do", "app", "let", "arith", "pair", "matchP", "wl", "sapp", "vapp"} -> 2
     [] tok.k = "br" -> 4
     [] tok.k = "match" -> 1 + Len(DataArms(tok.d)) - (IF tok.skip = 0 THEN 0 ELSE 1)
     [] tok.k = "comatch" -> Len(CoArms(tok.d)) - (IF tok.skip = 0 THEN 0 ELSE 1)
@@ -139,6 +141,12 @@ TyOf(ctx, n) ==
          IF IsErr(a) THEN a ELSE IF IsErr(b) THEN b
          ELSE IF ~IsV(a) \/ ~IsV(b) THEN Err("K-Sort-Pair")
          ELSE IF a = n.a /\ b = n.b THEN Pair(n.a, n.b) ELSE Err("T-Pair")
+    [] k = "vlam" -> LET b == TyOf(Append(ctx, n.a), n.xs[1]) IN
+         IF IsErr(b) THEN b ELSE IF ~IsV(b) THEN Err("K-Sort-VLam")
+         ELSE IF b = n.b THEN VFn(n.a, n.b) ELSE Err("T-VLam-Body")
+    [] k = "vapp" -> LET f == TyOf(ctx, n.xs[1]) a == TyOf(ctx, n.xs[2]) IN
+         IF IsErr(f) THEN f ELSE IF f # VFn(n.a, n.b) THEN Err("T-VApp-Head")
+         ELSE IF IsErr(a) THEN a ELSE IF a = n.a THEN n.b ELSE Err("T-VApp-Arg")
     [] k = "ret" -> LET a == TyOf(ctx, n.xs[1]) IN
          IF IsErr(a) THEN a ELSE IF ~IsV(a) THEN Err("K-Sort-Ret")
          ELSE IF a = n.a THEN Ret(n.a) ELSE Err("T-Ret")
@@ -233,6 +241,9 @@ GenValue(ty, ctx, G(_, _)) ==
   \/ On("data") /\ ty.t = "data" /\ \E i \in 1..Len(DataArms(ty.n)) :
         G([k |-> "ctor", d |-> ty.n, c |-> DataArms(ty.n)[i].c], <<Ob("v", DataArms(ty.n)[i].a, ctx)>>)
   \/ On("pair") /\ ty.t = "pair" /\ G([k |-> "pair", a |-> ty.a, b |-> ty.b], <<Ob("v", ty.a, ctx), Ob("v", ty.b, ctx)>>)
+  \/ On("vfn") /\ ty.t = "vfn" /\ G([k |-> "vlam", a |-> ty.a, b |-> ty.b], <<Ob("v", ty.b, Append(ctx, ty.a))>>)
+  \/ On("vfn") /\ ty.t # "vfn" /\ \E A \in {T \in BTys : T.t \in {"int", "unit"}} :
+        G([k |-> "vapp", a |-> A, b |-> ty], <<Ob("v", VFn(A, ty), ctx), Ob("v", A, ctx)>>)
 
 (* Productions whose conclusion is a COMPUTATION of type ty.               *)
 GenCompu(ty, ctx, G(_, _)) ==
@@ -291,13 +302,70 @@ GenFault(o) ==
        Bad("missingcoarm", [k |-> "comatch", d |-> ty.n, skip |-> sk],
            [i \in 1..(Len(CoArms(ty.n)) - 1) |-> Ob("c", CoArms(ty.n)[IF i < sk THEN i ELSE i + 1].c, ctx)])
 
+(* Scenario macros: fixed multi-token skeletons with holes, for program shapes far beyond the     *)
+(* exhaustive token bound.  A todo entry of sort "lit" is a token segment to be copied verbatim.  *)
+Lit(toks) == [s |-> "lit", toks |-> toks]
+GI == VFn(TUnit, TInt)
+PRV == Pair(GI, TInt)
+STEPV == VFn(TInt, VFn(GI, PRV))
+V(i) == [k |-> "var", i |-> i]
+(* "escape": a pure closure built in one activation of `step` escapes and is applied inside ANOTHER *)
+(* activation of the same function (the binder `a` is live twice):                                  *)
+(*   let step = fn a => fn p => (fn u => H1, p ()) in                                               *)
+(*   match step H2 (fn u => H3) | (f, x) => match step H4 f | (g, seen) => H5                       *)
+ScEscape(G(_, _)) ==
+  G([k |-> "let", a |-> STEPV, c |-> OS],
+    << Lit(<<[k |-> "vlam", a |-> TInt, b |-> VFn(GI, PRV)], [k |-> "vlam", a |-> GI, b |-> PRV],
+             [k |-> "pair", a |-> GI, b |-> TInt], [k |-> "vlam", a |-> TUnit, b |-> TInt]>>),
+       Ob("v", TInt, <<TInt, GI, TUnit>>),
+       Lit(<<[k |-> "vapp", a |-> TUnit, b |-> TInt], V(2), [k |-> "unit"],
+             [k |-> "matchP", c |-> OS], [k |-> "vapp", a |-> GI, b |-> PRV],
+             [k |-> "vapp", a |-> TInt, b |-> VFn(GI, PRV)], V(1)>>),
+       Ob("v", TInt, <<STEPV>>),
+       Lit(<<[k |-> "vlam", a |-> TUnit, b |-> TInt]>>),
+       Ob("v", TInt, <<STEPV, TUnit>>),
+       Lit(<<[k |-> "matchP", c |-> OS], [k |-> "vapp", a |-> GI, b |-> PRV],
+             [k |-> "vapp", a |-> TInt, b |-> VFn(GI, PRV)], V(1)>>),
+       Ob("v", TInt, <<STEPV, GI, TInt>>),
+       Lit(<<V(2)>>),
+       Ob("c", OS, <<STEPV, GI, TInt, GI, TInt>>) >>)
+(* "escapeT": the same with thunks and `do`:                                                        *)
+(*   let f = { fn a => fn p => do r <- ! p; ret ({ ret H1 }, r) } in                                *)
+(*   do q <- ! f H2 { ret H3 }; match q | (t, x) => do q2 <- ! f H4 t; match q2 | (g, seen) => H5   *)
+TRI == Thk(Ret(TInt))
+PRT == Pair(TRI, TInt)
+FT == Fn(TInt, Fn(TRI, Ret(PRT)))
+ScEscapeT(G(_, _)) ==
+  G([k |-> "let", a |-> Thk(FT), c |-> OS],
+    << Lit(<<[k |-> "thunk", c |-> FT], [k |-> "lam", a |-> TInt, c |-> Fn(TRI, Ret(PRT))],
+             [k |-> "lam", a |-> TRI, c |-> Ret(PRT)], [k |-> "do", a |-> TInt, c |-> Ret(PRT)],
+             [k |-> "force", c |-> Ret(TInt)], V(2), [k |-> "ret", a |-> PRT], [k |-> "pair", a |-> TRI, b |-> TInt],
+             [k |-> "thunk", c |-> Ret(TInt)], [k |-> "ret", a |-> TInt]>>),
+       Ob("v", TInt, <<TInt, TRI, TInt>>),
+       Lit(<<V(3), [k |-> "do", a |-> PRT, c |-> OS], [k |-> "app", a |-> TRI, c |-> Ret(PRT)],
+             [k |-> "app", a |-> TInt, c |-> Fn(TRI, Ret(PRT))], [k |-> "force", c |-> FT], V(1)>>),
+       Ob("v", TInt, <<Thk(FT)>>),
+       Lit(<<[k |-> "thunk", c |-> Ret(TInt)], [k |-> "ret", a |-> TInt]>>),
+       Ob("v", TInt, <<Thk(FT)>>),
+       Lit(<<[k |-> "matchP", c |-> OS], V(2), [k |-> "do", a |-> PRT, c |-> OS], [k |-> "app", a |-> TRI, c |-> Ret(PRT)],
+             [k |-> "app", a |-> TInt, c |-> Fn(TRI, Ret(PRT))], [k |-> "force", c |-> FT], V(1)>>),
+       Ob("v", TInt, <<Thk(FT), PRT, TRI, TInt>>),
+       Lit(<<V(3), [k |-> "matchP", c |-> OS], V(5)>>),
+       Ob("c", OS, <<Thk(FT), PRT, TRI, TInt, PRT, TRI, TInt>>) >>)
+
+ScenarioCfg == \E p \in Prods : p \in {"sc-escape", "sc-escapeT"}
 Gen ==
   /\ phase = "gen" /\ todo # << >>
   /\ Len(out) + Len(todo) <= MaxLen
   /\ LET o == Head(todo) IN
+     \/ o.s = "lit" /\ out' = out \o o.toks /\ todo' = Tail(todo)
+                   /\ UNCHANGED <<phase, faulty, ctl, env, stk, io, steps, res>>
      \/ o.s = "v" /\ GenValue(o.ty, o.ctx, Good)
-     \/ o.s = "c" /\ GenCompu(o.ty, o.ctx, Good)
-     \/ Faults # {} /\ faulty = "none" /\ GenFault(o)
+     \* in a scenario configuration the root IS a scenario; ordinary productions only fill its holes
+     \/ o.s = "c" /\ (out # << >> \/ ~ScenarioCfg) /\ GenCompu(o.ty, o.ctx, Good)
+     \/ o.s = "c" /\ o.ty = OS /\ o.ctx = << >> /\ out = << >> /\ On("sc-escape") /\ ScEscape(Good)
+     \/ o.s = "c" /\ o.ty = OS /\ o.ctx = << >> /\ out = << >> /\ On("sc-escapeT") /\ ScEscapeT(Good)
+     \/ o.s \in {"v", "c"} /\ Faults # {} /\ faulty = "none" /\ GenFault(o)
 
 ----------------------------------------------------------------------------
 (* Reference semantics: environment-passing CK machine.                    *)
@@ -311,6 +379,9 @@ EvalV(v, e) ==
     [] v.k = "thunk" -> [k |-> "clo", b |-> v.xs[1], e |-> e]
     [] v.k = "ctor"  -> [k |-> "ctor", c |-> v.c, a |-> EvalV(v.xs[1], e)]
     [] v.k = "pair"  -> [k |-> "pair", a |-> EvalV(v.xs[1], e), b |-> EvalV(v.xs[2], e)]
+    [] v.k = "vlam"  -> [k |-> "vclo", b |-> v.xs[1], e |-> e]
+    \* a pure closure runs in ITS OWN captured environment extended with the argument (static scoping)
+    [] v.k = "vapp"  -> LET f == EvalV(v.xs[1], e) IN EvalV(f.b, Append(f.e, EvalV(v.xs[2], e)))
 
 (* Rust `i64` division truncates towards zero; the remainder has the sign  *)
 (* of the dividend.  TLA+ \div and % floor, so they are defined here.      *)
